@@ -148,7 +148,11 @@ PROPS["C06"] = dict(
     assumptions=["SHA-1 is collision-free on the queried inputs", "fresh secrets differ from earlier ones"],
     outside=["that handler.rs passes addr.ip() and gates add_item on the result (F7)", "more than 2 interleaved events between issue and check"],
     harnesses=[
-        _c06("c06_lifetime_k3_v4", Q, 1500, 3, "IPv4", 0),
+        H("c06_lifetime_k3_v4_steady_traffic", "token", Q, 1500,
+          "IPv4 address symbolic (all bits); store age at issue symbolic in [0, 3 h]; 3 interleaved events, each symbolic in {none, checkout(other IP)} "
+          "at symbolic gaps in [0, 1 h] (1 ns); final gap symbolic in [0, 1 h]; final check-in presents the issued token from the same IP; clock start symbolic",
+          "k = 3 interleaved events of two kinds (the four-kind k = 3 instance is in the thorough tier); unwind 21",
+          ["TokenStore::new", "TokenStore::checkout", "TokenStore::checkin", "TokenStore::refresh_check", "intervals_passed"]),
         _c06("c06_lifetime_k1_v6", Q, 1200, 1, "IPv6", 0),
         _c06("c06_other_ip_k0_v4", Q, 1200, 0, "IPv4", 1),
         _c06("c06_other_ip_k0_v6", Q, 1200, 0, "IPv6", 1),
@@ -159,6 +163,7 @@ PROPS["C06"] = dict(
         _c06("c06_lifetime_k2_v4", T, 3000, 2, "IPv4", 0),
         _c06("c06_lifetime_k2_v6", T, 3000, 2, "IPv6", 0),
         _c06("c06_lifetime_k1_v4", T, 1200, 1, "IPv4", 0),
+        _c06("c06_lifetime_k3_v4", T, 4000, 3, "IPv4", 0),
         _c06("c06_other_ip_k1_v6", T, 3000, 1, "IPv6", 1),
         _c06("c06_never_issued_k1_v6", T, 3000, 1, "IPv6", 2),
         _c06("c06_foreign_store_k1_v6", T, 3000, 1, "IPv6", 3),
